@@ -52,6 +52,16 @@ CLAIMED = {
          "A real kafka.ConsumerGroup runs application loops with functions that return at once, on cancellation, late after cancellation or after k ms, under coordinator error codes and dropped connections on every group API, forced rebalances, evictions, topic growth under the partition watcher, slow applications (Start on an already ended generation) and Close at random points; checked: Next never returns a generation while a function of the previous one runs, contexts are done before the member re-joins, heartbeat rate bounds, LeaveGroup before Close returns, ErrGroupClosed afterwards, join back-off lower bound.",
          "trusted: fake coordinator; heartbeat rate and back-off are bounds that load can only lengthen; functions started after the following Next call are outside the claim",
          "DESIGN.md section 5 C15"),
+ "C05": ("exploration",
+         "runtime differential oracle: produced bytes judged by the strict reference record decoder on the fake broker; reference-encoded layouts (formats 0/1/2, every codec, wrappers with relative offsets and gaps, control batches, flipped bits) decoded through Client.Fetch and Conn.ReadBatch and compared with ground truth; held-page hash monitor with poisoned page reuse",
+         "Record lists (nil/empty/large keys and values, 0-5 headers, sub-millisecond, equal, decreasing and unset times) are produced through Writer, Client.Produce and Conn at produce v2-v8 with every codec and must be accepted by the reference decoder and equal what was submitted; reference-encoded fetch layouts must come back identical through both read paths, control and corrupt batches hidden by Client.Fetch; bytes handed out by Client.Fetch are hashed when handed out and before Close while 2-8 goroutines keep decoding (pages recycled, poisoned under the verif tag).",
+         "trusted: refcodec record codecs and its reference compression libraries; unset times only need to lie within a day of the run; the Conn path is not asked to verify checksums or hide control records (statement)",
+         "DESIGN.md section 5 C05"),
+ "C11": ("fault_enumeration",
+         "runtime differential monitor, enumerated completely: (Conn operation, negotiated version, error field, error code, following operation) on the faulted connection vs a fresh connection against an identical fake broker; plus no-fault sequences and damaged frames",
+         "Every pair of kafka.Conn operations (14 operations incl. partial batch reads and short-buffer reads) is run with the first one answered by each of 12 error codes in each error field of each negotiable version (and without fault); the second operation's value digest and error class on the same Conn must equal those on a fresh Conn. Damaged frames (wrong correlation id, wrong length, trailing garbage) must never yield a value that differs from the fresh connection's.",
+         "trusted: the fake broker answers deterministically; an error placed in a field the operation does not surface may leave it successful",
+         "DESIGN.md section 5 C11"),
 }
 
 REASON_NOT_BUILT = "check not built yet in this round (design in DESIGN.md section 5); no claim is made"
